@@ -10,6 +10,7 @@ import (
 	"path/filepath"
 	"sort"
 	"strings"
+	"time"
 )
 
 // ---------- PRNG (splitmix64): every random choice derives from one seed ----------
@@ -30,8 +31,8 @@ func (r *RNG) Intn(n int) int {
 	}
 	return int(r.Next() % uint64(n))
 }
-func (r *RNG) Bool() bool        { return r.Next()&1 == 1 }
-func (r *RNG) Pick(b []byte) byte { return b[r.Intn(len(b))] }
+func (r *RNG) Bool() bool              { return r.Next()&1 == 1 }
+func (r *RNG) Pick(b []byte) byte      { return b[r.Intn(len(b))] }
 func (r *RNG) PickS(b []string) string { return b[r.Intn(len(b))] }
 
 // ---------- encoding ----------
@@ -86,15 +87,15 @@ type Report struct {
 }
 
 type Ctx struct {
-	Prop   string
-	Tier   string
-	Seed   uint64
-	OutDir string
-	R      *RNG
-	cases  *bufio.Writer
-	cf     *os.File
-	seen   map[[16]byte]bool
-	Rep    Report
+	Prop    string
+	Tier    string
+	Seed    uint64
+	OutDir  string
+	R       *RNG
+	cases   *bufio.Writer
+	cf      *os.File
+	seen    map[[16]byte]bool
+	Rep     Report
 	maxViol int
 }
 
@@ -203,3 +204,23 @@ func sortedKeys(m map[string]int) []string {
 func q(b []byte) string { return fmt.Sprintf("%q", string(b)) }
 
 var _ = strings.Join
+
+// watchdog runs f; if it does not return within d the run is cut short: the violation is
+// recorded, the report written and the process exits (the stuck goroutine cannot be stopped).
+func (c *Ctx) watchdog(d time.Duration, kind string, input func() interface{}, f func()) {
+	done := make(chan struct{})
+	go func() {
+		defer close(done)
+		f()
+	}()
+	select {
+	case <-done:
+	case <-time.After(d):
+		c.Violate(kind, input(), fmt.Sprintf("no result after %v (hang)", d), kind)
+		if c.Rep.Evaluations == 0 {
+			c.Rep.Evaluations = 1
+		}
+		c.Close()
+		os.Exit(0)
+	}
+}
